@@ -28,7 +28,11 @@ impl AsyncTimerKeyboardTask {
         for _ in 0..cycles {
             sleep_cycles(1).await;
             let cycle = current_cycle();
-            self.runtime.borrow_mut().tick_timers_and_keyboard(cycle);
+            let mut rt = self.runtime.borrow_mut();
+            if rt.state.is_off() {
+                continue;
+            }
+            rt.tick_timers_and_keyboard(cycle);
         }
     }
 }
